@@ -591,9 +591,11 @@ impl<T> Handle<T> {
 
 impl<T> Drop for Handle<T> {
     fn drop(&mut self) {
-        if let Some(t) = self.task.take() {
-            t.detach();
-        }
+        // Cancel rather than detach: a detached root task that is parked forever would keep its
+        // future (and through it connections, proxies, ...) alive in a reference cycle with the
+        // wakers it registered. Cancelling schedules the runnable once more; running or dropping
+        // it (World::drop drains the pool) drops the future.
+        self.task.take();
     }
 }
 
